@@ -387,3 +387,14 @@ Qed.
 
 Theorem parse_print_filter f : parse_expr (print_expr (filter_expr f)) = Some (filter_expr f).
 Proof. apply parse_print. unfold filter_expr. apply filter_groups_ok. constructor. Qed.
+
+(* string level: whatever pfid2_filter_to_str returns reads back as a tree that
+   evaluates like the filter bytes *)
+Theorem filter_string_equiv f s : pfid2_filter_to_str f = Ok s ->
+  terminated (entries (dropN 2 f)) ->
+  exists e, parse_expr s = Some e /\ forall hw, eval_expr hw e = eval_filter_bytes hw f.
+Proof.
+  intros H Ht. rewrite filter_str_is_printed_expr in H.
+  destruct (filter_header_ok f); [|discriminate]. inversion H; subst s.
+  exists (filter_expr f). split; [apply parse_print_filter|]. apply filter_expr_equiv. exact Ht.
+Qed.
